@@ -560,6 +560,34 @@ def subclassesFrom (s : Sys) : Nat → Nat → List Nat
   | f+1, c =>
     c :: ((s.ob c).subclasses.filter fun sc => !hasSpace (fullName s sc) && visible s sc).flatMap (subclassesFrom s f)
 
+/-- the resolved bases of a class that are visible: below the first of them `subclassesFrom` lists it -/
+def visBases (s : Sys) (c : Nat) : List Nat :=
+  (s.ob c).bases.filterMap fun b =>
+    match b with
+    | some b => if visible s b then some b else none
+    | none => none
+
+/-- length of the chain class → first visible base → its first visible base → …; `none` = the chain does
+not end (cyclic inheritance, which `compute_mro` reports and `findRootClasses` would not list) -/
+def baseDepth (s : Sys) : Nat → Nat → Option Nat
+  | 0, _ => none
+  | f+1, c =>
+    match visBases s c with
+    | [] => some 0
+    | b :: _ => (baseDepth s f b).map (· + 1)
+
+/-- what post-processing establishes about the class hierarchy, as far as classIndex.html relies on it: every
+visible class is registered and has no blank in its names (blanks come from `handleDuplicate` only, and those
+objects are not visible), `bases` and `baseobjects` have the same length, a visible resolved base is a
+registered class that lists the class among its `subclasses`, and the chain of first visible bases ends -/
+def hierWf (s : Sys) : Bool :=
+  (List.range s.n).all fun c =>
+    !((s.ob c).kind == .cls && visible s c) ||
+      (s.all.contains c && !hasSpace (s.ob c).name && !hasSpace (fullName s c)
+        && (s.ob c).bases.length == (s.ob c).baseNames.length
+        && (baseDepth s s.n c).isSome
+        && (visBases s c).all fun b => (s.ob b).kind == .cls && (s.ob b).subclasses.contains c)
+
 /-- every class that gets an entry (and the anchor `name=fullName`) in classIndex.html -/
 def classIndexListed (s : Sys) : List Nat :=
   (findRootClasses s).flatMap fun kv => kv.2.classes.flatMap (subclassesFrom s s.n)
@@ -578,6 +606,20 @@ def classIndexTexts (s : Sys) : List (Name × Bool) :=
     | .many l => some (kv.1, l.all (classNodePrivate s s.n))
 
 def visibleAll (s : Sys) : List Nat := s.all.filter (visible s)
+
+/-- `str.upper()` of an ASCII letter (names of generated and real projects start with an ASCII letter or `_`) -/
+def upperAscii (c : Char) : Char := if 'a' ≤ c ∧ c ≤ 'z' then Char.ofNat (c.toNat - 32) else c
+
+/-- `NameIndexPage.__init__`: `self.initials.setdefault(ob.name[0].upper(), [])` for every visible object
+(`none`: an empty name, `ob.name[0]` raises IndexError) -/
+def initialOf (s : Sys) (o : Nat) : Option Char := (s.ob o).name.head?.map upperAscii
+
+/-- the letters of nameIndex.html: each gets a heading with `<a name=letter>` -/
+def letters (s : Sys) : List Char := ((visibleAll s).filterMap (initialOf s)).eraseDups
+
+/-- `LetterElement.letterlinks`: under every letter, a link `#other` to every other letter -/
+def letterLinks (s : Sys) : List (Char × Char) :=
+  (letters s).flatMap fun l => ((letters s).filter (· != l)).map fun o => (l, o)
 
 def summaryEmits (s : Sys) : List Emit :=
   -- since 4b6324b: `for o in self.system.rootobjects if o.isVisible`
@@ -625,11 +667,12 @@ def inHierarchy (s : Sys) : List (File × Name) :=
 /-! ### anchors and resolution -/
 
 /-- anchors (`<a name=…>`) present in a written file: both spellings for every member shown in
-`#childList`; the class anchors of classIndex.html -/
+`#childList`; the class anchors of classIndex.html; the letter anchors of nameIndex.html -/
 def anchorsOf (s : Sys) (f : File) : List Name :=
   ((pages s).filter fun p => pageFile s p = f).flatMap (fun p =>
       (methods s p).flatMap fun c => [(s.ob c).name, fullName s c])
   ++ (if f = .summary .classIndex then (classIndexListed s).map (fullName s) else [])
+  ++ (if f = .summary .nameIndex then (letters s).map (fun c => [c]) else [])
 
 /-- does the reference `h`, found on `page`, lead to one of the files `w` and, if it has a fragment, to
 one of the anchors `anch` gives for that file? -/
